@@ -225,3 +225,76 @@ func VerifC18CloseBlockedLoad() {
 	}
 	_ = r2.Close()
 }
+
+// VerifC18DropDuring: Drop is called at ANY visible step of a local write or of
+// a replication (Drop closes the store, destroys its cache and resets log and
+// index, taking locks the writer and the joiner take too).  Drop and the
+// operation it interrupted both return, Close after Drop returns, later
+// operations return, and no background activity is left.
+func VerifC18DropDuring() {
+	blocks := vstub.NewBlocks(nil)
+	prov := vstub.NewProvider()
+	w2 := vstub.NewIdentity("w2", prov)
+	env := vstubodb.NewEnv("a", 1, "db", blocks, nil)
+	opts := env.Options(true)
+	opts.AccessController = vstubodb.WriteAll()
+	a := &BaseStore{}
+	if err := a.InitBaseStore(env.IPFS, env.Identity, env.Addr, opts); err != nil {
+		vstub.Fail("InitBaseStore failed")
+		return
+	}
+	ctx := context.Background()
+	if _, err := a.AddOperation(ctx, operation.NewOperation(nil, "ADD", []byte("first")), nil); err != nil {
+		vstub.Fail("C18 AddOperation failed")
+		return
+	}
+	vstub.WaitIdle()
+	dropped := make(chan struct{})
+	fired := false
+	dropper := func() {
+		fired = true
+		go func() {
+			defer close(dropped)
+			_ = a.Drop()
+		}()
+	}
+	vstub.FaultAtAnyStep(dropper)
+	switch vstub.NdChoice("activity", 2) {
+	case 0:
+		_, _ = a.AddOperation(ctx, operation.NewOperation(nil, "ADD", []byte("second")), nil)
+		vstub.Cover("drop-mid-write")
+	case 1:
+		var l *ipfslog.IPFSLog
+		var e ipfslog.Entry
+		for k := 0; k < 2; k++ {
+			l, e = appendAs(env, l, a.id, w2, []byte{'r', byte(k)})
+			if e == nil {
+				return
+			}
+		}
+		_ = a.Sync(ctx, []ipfslog.Entry{e.Copy()})
+		vstub.Cover("drop-mid-replication")
+	}
+	vstub.WaitIdle()
+	vstub.FaultDisarm()
+	if !fired {
+		dropper()
+	}
+	<-dropped
+	vstub.WaitIdle()
+	vstub.Cover("dropped")
+	_ = a.Close()
+	vstub.WaitIdle()
+	vstub.Assert(vstub.LiveThreads(repoGoroutines) == 0, "C18 after Drop (at any moment) and Close no background activity started by the store is left")
+	switch vstub.NdChoice("later", 3) {
+	case 0:
+		_, _ = a.AddOperation(ctx, operation.NewOperation(nil, "ADD", []byte("late")), nil)
+	case 1:
+		_ = a.Load(ctx, -1)
+	case 2:
+		_ = a.Drop()
+	}
+	vstub.WaitIdle()
+	vstub.Cover("later-returned")
+	vstub.Assert(vstub.LiveThreads(repoGoroutines) == 0, "C18 an operation on a dropped store starts no lasting background activity")
+}
